@@ -23,7 +23,6 @@ import (
 	"github.com/circlefin/noble-cctp/x/cctp/types"
 	"github.com/cosmos/cosmos-sdk/runtime"
 	sdk "github.com/cosmos/cosmos-sdk/types"
-	"github.com/cosmos/cosmos-sdk/types/query"
 	"google.golang.org/grpc/codes"
 	"google.golang.org/grpc/status"
 )
@@ -53,7 +52,7 @@ func (k Keeper) PerMessageBurnLimits(c context.Context, req *types.QueryAllPerMe
 	adapter := runtime.KVStoreAdapter(k.storeService.OpenKVStore(ctx))
 	perMessageBurnLimitsStore := prefix.NewStore(adapter, types.KeyPrefix(types.PerMessageBurnLimitKeyPrefix))
 
-	pageRes, err := query.Paginate(perMessageBurnLimitsStore, req.Pagination, func(key []byte, value []byte) error {
+	pageRes, err := paginate(perMessageBurnLimitsStore, req.Pagination, func(key []byte, value []byte) error {
 		var perMessageBurnLimit types.PerMessageBurnLimit
 		if err := k.cdc.Unmarshal(value, &perMessageBurnLimit); err != nil {
 			return err
